@@ -25,13 +25,17 @@ import (
 const lifeImports = "From NRI Require Import Model.Stub Spec.StubSpec Run.Common Run.RunStub."
 
 const (
-	bDropInReg = "drop-in-register"
-	bSilentReg = "silent-register"
+	bDropInReg     = "drop-in-register"
+	bSilentReg     = "silent-register"
+	bCfgReject     = "configure-rejected"        // the hook asks for an event without handler; the runtime end keeps the connection
+	bCfgErrorDrop  = "configure-error-then-drop" // the hook fails; the runtime end drops the connection 50 ms after the error
+	bCfgRejectDrop = "configure-rejected-then-drop"
 )
 
 var behTerm = map[string]string{
 	bHealthy: "BHealthy", bUnreachable: "BUnreachable", bRefuse: "BRefuse", bDropInReg: "BDropInReg",
 	bSilentReg: "BSilentReg", bDropAfterReg: "BDropAfterReg", bCfgError: "BCfgError", bDropInCfg: "BDropAfterCfg",
+	bCfgReject: "BCfgReject", bCfgErrorDrop: "BCfgErrorDrop", bCfgRejectDrop: "BCfgRejectDrop",
 }
 
 type lifeOp struct {
@@ -109,6 +113,18 @@ func (r *rig) setBehaviour2(b string) {
 		sc.Register = "silent"
 		r.unreachable.Store(false)
 		r.pl.failCfg.Store(false)
+		r.rt.setScript(sc)
+	case bCfgReject, bCfgErrorDrop, bCfgRejectDrop:
+		sc := healthyScript()
+		if b != bCfgReject {
+			sc.AfterCfgErr = "drop"
+		}
+		r.unreachable.Store(false)
+		r.pl.failCfg.Store(b == bCfgErrorDrop)
+		r.pl.cfgMask.Store(0)
+		if b != bCfgErrorDrop {
+			r.pl.cfgMask.Store(2) // StopPodSandbox: the life plugin has no handler for it
+		}
 		r.rt.setScript(sc)
 	default:
 		r.setBehaviour(b)
@@ -480,7 +496,7 @@ func lifeSequences(c *hx.Ctx) [][]lifeOp {
 	}
 	seqs = append(old, withLose...)
 
-	faults := []string{bUnreachable, bRefuse, bDropInReg, bDropAfterReg, bCfgError, bDropInCfg}
+	faults := []string{bUnreachable, bRefuse, bDropInReg, bDropAfterReg, bCfgError, bDropInCfg, bCfgReject, bCfgErrorDrop, bCfgRejectDrop}
 	for _, f := range faults {
 		F := "start(" + f + ")"
 		add(F)
@@ -506,7 +522,7 @@ func lifeSequences(c *hx.Ctx) [][]lifeOp {
 	// a Start that fails after its client exists, at once followed by a healthy Start: the failed attempt's
 	// close notification runs before or after the new Start got the lock; the new session must stay up
 	for i := 0; i < c.Pick(3, 8); i++ {
-		for _, f := range []string{bRefuse, bDropInReg, bDropAfterReg, bCfgError} {
+		for _, f := range []string{bRefuse, bDropInReg, bDropAfterReg, bCfgError, bCfgReject} {
 			add("startstart(" + f + ",healthy)")
 			add("S stop startstart(" + f + ",healthy) wait")
 			add("startstart(" + f + ",healthy) stop S")
@@ -641,7 +657,9 @@ func driveLife(c *hx.Ctx) error {
 	c.Stats.Rule = "stublife: one real stub.Stub (plugin with a Configure hook and one handler, OnClose counting) against the scripted runtime end " +
 		"(unix socket + multiplex + ttrpc); per Start the runtime end is healthy, unreachable (dial fails), refuses registration, drops the " +
 		"connection on receipt of RegisterPlugin, never answers it (registration time-out 400 ms, set by an earlier Configure), drops 50 ms after " +
-		"answering it and before Configure, lets the plugin's Configure fail, or drops once it has the Configure response. Sequences: every " +
+		"answering it and before Configure, gets an error for Configure - because the plugin's hook fails or because the hook asks for an event " +
+		"without handler and the stub refuses - and then either KEEPS the connection open for the rest of the run or drops it 50 ms later, " +
+		"or drops once it has the Configure response. Sequences: every " +
 		"sequence of Start(healthy)/Stop/Wait of length <= 4 and with connection loss of length <= 3; for every fault f: f alone, f then " +
 		"healthy restart(s), f after Stop / after a loss, f in an immediate restart; Stop-then-immediate-Start repeated (the outcome depends on the " +
 		"lock race; both schedules are in the model's prediction set); a Start failing after its client exists (refused, dropped in / after " +
